@@ -44,7 +44,7 @@ for d in sorted(os.listdir(os.path.join(ROOT, "seeded"))):
                 obs.append(m.group(1))
     files = sorted(set(re.findall(r"^\+\+\+ b/(\S+)", open(os.path.join(p, "patch.diff")).read(), re.M)))
     verdict = "caught" if target in hit else ("caught by other property only" if hit else ("inconclusive" if inc else "MISSED"))
-    rows.append("| %s | %s | %s | %s | %s | %s | %s | %s |" % (d, target, ", ".join(f.split("/")[-1] for f in files), {True: "yes", "partial": "partly (see meta.json)", False: "NO"}.get(meta.get("verified"), str(meta.get("verified", "pending"))), FIRST.get(d, "caught"), verdict, ", ".join(obs[:4]), ", ".join(x for x in hit if x != target)))
+    rows.append("| %s | %s | %s | %s | %s | %s | %s | %s |" % (d, target, ", ".join(f.split("/")[-1] for f in files), {True: "yes", "partial": "partly (see meta.json)", "demo only": "demo only (suite: sub-agent's run)", False: "NO"}.get(meta.get("verified"), str(meta.get("verified", "pending"))), FIRST.get(d, "caught"), verdict, ", ".join(obs[:4]), ", ".join(x for x in hit if x != target)))
 hdr = "| seed | target | file(s) | verified here | first run (before strengthening) | target's check now | obligations that fire | other properties that also alarm |\n|---|---|---|---|---|---|---|---|\n"
 txt = hdr + "\n".join(rows) + "\n"
 p = os.path.join(ROOT, "DESIGN.md")
